@@ -449,7 +449,16 @@ def main():
     nev, fails, files = validate_traces(traces, scratch, 4 if tier == "quick" else 8, v, cov)
     demo = corruption_demo(traces, scratch) if traces else None
     divergences = {}
+    seen_hs = set()
     for f in fails:
+        if f["why"].startswith("recovered:"):
+            # not a matter of conformance: the node itself reports, at its restart, a hard state behind the one it had sent
+            # messages with - a vote or a term that was acted upon and not made durable (it can vote twice in one term)
+            if f["why"] not in seen_hs:
+                seen_hs.add(f["why"])
+                v.report({"branch": "restart.hardstate", "kind": "persisted-behind-acted", "detail": f["why"].split(":")[1].strip()[:60]}, f,
+                         what="event trace of node %s: %s" % (f["src"], f["why"]))
+            continue
         divergences.setdefault(f["why"], []).append(f["src"])
     for why, srcs in divergences.items():
         print("DIVERGENCE property=C08 hook trace not a behaviour of TraceCluster.tla: %s (%d traces, e.g. %s)" % (why, len(srcs), srcs[0]), flush=True)
